@@ -204,6 +204,9 @@ func (c17l3) Execute(sc core.Script, keep bool) *core.Result {
 			o = o2
 		}
 	}
+	if o.BWaited {
+		res.Probes["b-waited-for-parked-a"]++
+	}
 	pair := s.A.Kind + "+" + s.B.Kind
 	// The event log holds only what a correct library determines: which calls ran, whether
 	// A was parked inside its call, and the verdict. Instruction counts and the exact
